@@ -1,5 +1,5 @@
 CONSTANTS B2 = 3 B3a = 2 B3b = 1
 SPECIFICATION Spec
-INVARIANTS InvDot InvCross InvProj InvReflectInt InvFaceforward InvTriple InvClosest InvRay InvJudge InvRegion
+INVARIANTS InvDot InvNorms InvCross InvProj InvReflectInt InvFaceforward InvTriple InvClosest InvRay InvJudge InvRegion
 PROPERTY ReflectStep
 CHECK_DEADLOCK FALSE
